@@ -34,7 +34,7 @@ NSAMP = [1, 3, 10000]
 PERIODS = [-2, -1, 0, 1, 2, 3]
 CUSTOM_SCALAR = 2.5
 CUSTOM_PAIR = (2.5, 0.75)
-SUBPOOLS = {'S1': ('ramp', 'gauss', 'const'), 'S2': ('two', 'huge', 'tiny')}
+SUBPOOLS = {'S1': ('ramp', 'gauss', 'const'), 'S2': ('two', 'huge', 'tiny'), 'S3': ('i8lead', 'u8lead', 'f32off')}
 CONSTS = [0.0, 0.1, 1.9, -2.7, 7.0, 1e150, 3.3e150, 1e-150]
 CONST_LENS = [1, 2, 3, 7, 10, 100]
 ERR = dict(over='raise', invalid='raise', divide='raise')     # underflow is left alone
@@ -60,6 +60,13 @@ def pool(seed):
     lg = rng.normal(-4.0, 3.0, 10040)
     lg[10000:] += 1e6                                                    # only a whole-array estimator sees this
     P['long'] = lg
+    # other sample types: integer voltages whose leading samples are constant (the estimate then comes back in the input's
+    # own type), small unsigned integers, single- and half-precision voltages on an offset
+    P['i8lead'] = np.array([127, 127, 127, 126, 0, -128, 5, -7, 100, 64] + [int(v) for v in rng.integers(-128, 128, L - 10)], dtype=np.int8)
+    P['u8lead'] = np.array([200, 200, 200, 198, 199, 200, 201, 255, 0, 17] + [int(v) for v in rng.integers(0, 256, L - 10)], dtype=np.uint8)
+    P['i16'] = rng.integers(-30000, 30000, L).astype(np.int16)
+    P['f32off'] = (4096.0 + np.linspace(-2.0, 2.0, L)[rng.permutation(L)]).astype(np.float32)
+    P['f16off'] = (300.0 + np.linspace(-4.0, 4.0, L)[rng.permutation(L)]).astype(np.float16)
     for a in P.values():
         a.setflags(write=False)
     _POOLS[seed] = P
@@ -473,7 +480,7 @@ CPAIRS = [('ramp', 'gauss'), ('ramp', 'const'), ('gauss', 'const'), ('const', 'r
 
 
 def _func_tags():
-    tags = ['ramp', 'gauss', 'const', 'two', 'huge', 'tiny', 'single', 'long', 'offset', 'offset5']
+    tags = ['ramp', 'gauss', 'const', 'two', 'huge', 'tiny', 'single', 'long', 'offset', 'offset5', 'i8lead', 'u8lead', 'i16', 'f32off', 'f16off']
     for v in CONSTS:
         for n in CONST_LENS:
             tags.append('c:%r:%d' % (v, n))
@@ -647,6 +654,8 @@ def run(ctx):
         boxes.append(dict(name='B', depth=4, subs=['S1'], nsamp=[3, 10000], targets=T4))
         # C: the extreme-magnitude sub-pool
         boxes.append(dict(name='C', depth=3, subs=['S2'], targets=T4))
+        # D: the other sample types (integer voltages with constant leading samples, single precision on an offset)
+        boxes.append(dict(name='D', depth=3, subs=['S3'], targets=T4, nsamp=[3, 10000], bits=[8, 4]))
     else:
         # A: the complete parameter product, every sequence of length 4;  A5: length 5 where the deviation
         # estimate is not trivially zero (N > 1);  B: length 6 (period 5 included), reduced targets / bit widths
@@ -655,6 +664,7 @@ def run(ctx):
         boxes.append(dict(name='B', depth=6, subs=['S1'], nsamp=[3, 10000], periods=PERIODS + [5], targets=T4,
                           bits=[2, 3, 5, 8]))
         boxes.append(dict(name='C', depth=4, subs=['S2']))
+        boxes.append(dict(name='D', depth=4, subs=['S3'], nsamp=[3, 10000]))
     bounds = []
     fcases = []
     for N in NSAMP:
